@@ -17,17 +17,41 @@ COQ_LANG = {"py": "Py", "ts": "Ts", "js": "Ts", "rs": "Rs"}
 BASE = {"Dec": 10, "Hex": 16, "Oct": 8, "Bin": 2, "HexU": 16, "OctU": 8, "BinU": 2}
 PREFIX = {"Dec": "", "Hex": "0x", "Oct": "0o", "Bin": "0b", "HexU": "0X", "OctU": "0O", "BinU": "0B"}
 
-MULTI = {"Arg", "Elts", "UpperTuple", "TsEnum", "DictKeys", "Range", "Decorator", "Nested", "Macro"}
+# same-line comments: (text after the comment leader, rules the ignore parser reads: None = no directive, [] = bare ignore)
+DIR_POOL = [
+    ("thailint: ignore[magic-numbers]", ["magic-numbers"]),
+    ("thailint: ignore[magic-numbers] - Industry standard timeout", ["magic-numbers"]),
+    ("thailint: ignore[nesting]", ["nesting"]),
+    ("thailint: ignore[nesting,magic-numbers]", ["nesting", "magic-numbers"]),
+    ("thailint: ignore[magic-numbers, dry]", ["magic-numbers", "dry"]),
+    ("thailint: ignore[magic-numbers.numeric-literal]", ["magic-numbers.numeric-literal"]),
+    ("thailint: ignore", []),
+    ("just a note about 42", None),
+]
+
+
+def coq_dirs(f) -> str:
+    out = []
+    for sc in f["scopes"]:
+        for s in sc["sites"]:
+            if s.get("dir") is not None:
+                text, rules = DIR_POOL[s["dir"]]
+                rs = "None" if rules is None else "(Some " + coq_list([coq_string(r) for r in rules]) + ")"
+                out.append(f"({s['line']}, mk_dir {coq_string(text)} {rs})")
+    return coq_list(out)
+
+
+MULTI = {"Arg", "Elts", "UpperTuple", "TsEnum", "DictKeys", "Range", "Decorator", "Nested", "Macro", "RsEnum"}
 CTXS = {
     "py": ["Assign", "Arg", "Return", "Default", "Elts", "Compare", "Binop", "Mul", "Neg", "Upper", "UpperNeg", "UpperAnn",
            "UpperTuple", "Range", "Enumerate", "StrRepeatL", "StrRepeatR", "DictKeys",
            "Interp", "Decorator", "Nested", "Match", "Kwarg", "Index", "Lambda"],
     "ts": ["Assign", "Arg", "Return", "Default", "Elts", "Compare", "Binop", "Mul", "Neg", "Upper", "UpperNeg", "UpperAnn",
-           "UpperTuple", "TsEnum", "Interp", "Nested", "Match", "Index", "Lambda"],
+           "UpperTuple", "TsEnum", "Interp", "Nested", "Match", "Index", "Lambda", "TsField"],
     "rs": ["Assign", "Arg", "Return", "Elts", "Compare", "Binop", "Mul", "Neg", "Upper", "UpperNeg", "UpperTuple", "RsStatic",
-           "Macro", "Nested", "Match", "Index", "Lambda"],
+           "Macro", "Nested", "Match", "Index", "Lambda", "RsEnum"],
 }
-JS_EXCLUDED = {"UpperAnn", "TsEnum"}
+JS_EXCLUDED = {"UpperAnn", "TsEnum", "TsField"}
 ITEM_CTXS = {"Upper", "UpperNeg", "UpperTuple", "RsStatic"}          # Rust items: allowed at module level
 
 
@@ -38,10 +62,12 @@ def ctx_ok(lang: str, scope_kind: str, ctx: str) -> bool:
         return scope_kind in ("Func", "Method", "Nested")
     if ctx == "TsEnum":
         return scope_kind == "Top"
-    if lang == "rs" and scope_kind in ("Top", "Class"):
+    if lang == "rs" and scope_kind == "Top":
+        return ctx in ITEM_CTXS or ctx == "RsEnum"
+    if lang == "rs" and scope_kind == "Class":
         return ctx in ITEM_CTXS
-    if lang in ("ts", "js") and scope_kind == "Class":
-        return False
+    if lang in ("ts", "js"):
+        return (ctx == "TsField") == (scope_kind == "Class")
     return True
 
 
@@ -129,7 +155,7 @@ def _stmt(lang: str, site, k: int):
             "TsEnum": f"enum E{k} {{ " + ", ".join(f"M{j} = {t}" for j, t in enumerate(ls)) + " }",
             "Interp": f"let {nm} = `v${{{one}}}`;", "Nested": f"let {nm} = [[{many}]];",
             "Match": f"switch (x) {{ case {one}: break; }}", "Index": f"let {nm} = x[{one}];",
-            "Lambda": f"let {nm} = (y) => y + {one};",
+            "Lambda": f"let {nm} = (y) => y + {one};", "TsField": f"static readonly {nm} = {one};",
         }[c]
     return {
         "Assign": f"let {nm} = {one};", "Arg": f"{nm}({many});", "Return": f"return {one};",
@@ -139,6 +165,7 @@ def _stmt(lang: str, site, k: int):
         "UpperTuple": f"const {nm}: &[i64] = &[{many}];", "RsStatic": f"static {nm}: i64 = {one};",
         "Macro": f"{nm}!({many});", "Nested": f"let {nm} = [[{many}]];", "Match": f"match x {{ {one} => {{}}, _ => {{}} }}",
         "Index": f"let {nm} = x[{one}];", "Lambda": f"let {nm} = |y| y + {one};",
+        "RsEnum": f"enum E{k} {{ " + ", ".join(f"M{j} = {t}" for j, t in enumerate(ls)) + " }",
     }[c]
 
 
@@ -158,6 +185,9 @@ def render(f, top_offset: int = 0) -> str:
             st = _stmt(lang, s, len(out) + 1)
             lines, at = st if isinstance(st, tuple) else ([st], 0)
             s["line"] = len(out) + 1 + at
+            if s.get("dir") is not None:                      # trailing comment on the line that holds the literals
+                lines = list(lines)
+                lines[at] += f"  {cm} {DIR_POOL[s['dir']][0]}"
             for ln in lines:
                 emit(ind, ln)
         if need_body and not sc["sites"] and lang == "py":
@@ -187,6 +217,10 @@ def render(f, top_offset: int = 0) -> str:
             ty = ": number" if lang == "ts" else ""
             if k == "Top":
                 sites(0, sc, False)
+            elif k == "Class":
+                emit(0, f"class K{n} {{")
+                sites(1, sc, False)
+                emit(0, "}")
             elif k == "Func":
                 emit(0, f"function f{n}(x{ty}) {{")
                 sites(1, sc, False)
